@@ -135,7 +135,7 @@ def main() -> int:
     # listed findings) have no meaningful 'statement printed for the op'; they stay in C09 only through the fallback /
     # SsbScript paths
     from vf import shapes
-    STRUCT = {"call", "startjump", "xroutine", "selftarget", "spin", "twoback", "orphancase"}
+    STRUCT = {"call", "xroutine", "selftarget", "spin", "twoback", "orphancase"}
     n_before = len(cases)
     cases = [c for c in cases if not (set(shapes.tags(c["routines"])) & STRUCT)]
     rep.extra["skipped_c02_finding_shapes"] = n_before - len(cases)
